@@ -59,10 +59,16 @@ func scratch() string {
 func genC06(r *simrt.Rand, tier string) any {
 	p := &C06Plan{MaxBytes: []int64{120, 300, 1 << 20}[r.Intn(3)], Double: tier == "thorough" && r.Chance(30)}
 	n := 1 + r.Intn(8)
+	pads := []int{0, 1, 5, 30, 120}
+	if tier != "thorough" {
+		// quick tier: smaller logs, more of them (each log costs one read per fault position)
+		n = 1 + r.Intn(5)
+		pads = []int{0, 1, 5, 30}
+	}
 	dbs := []string{"", "a", "alpha", "bravo-db", strings.Repeat("x", 40), strings.Repeat("y", 255)}
 	for i := 0; i < n; i++ {
 		a := Append{Kind: []string{"meta", "meta", "raw", "rows"}[r.Intn(4)], DB: dbs[r.Intn(len(dbs))], Meas: []string{"cpu", "m", "mem_total"}[r.Intn(3)],
-			N: 1 + r.Intn(3), Pad: []int{0, 1, 5, 30, 120}[r.Intn(5)], Seed: int64(r.Intn(1 << 30))}
+			N: 1 + r.Intn(3), Pad: pads[r.Intn(len(pads))], Seed: int64(r.Intn(1 << 30))}
 		p.Appends = append(p.Appends, a)
 	}
 	return p
